@@ -297,7 +297,97 @@ func (p *Program) Callees(c ssa.CallInstruction) (fns []*ssa.Function, ok bool) 
 	if fn := cc.StaticCallee(); fn != nil {
 		return []*ssa.Function{fn}, true
 	}
+	// a function looked up in a package-level dispatch table
+	if g := dispatchTable(cc.Value); g != nil {
+		if es := p.tableFuncs(g); len(es) > 0 {
+			for _, e := range es {
+				fns = append(fns, e.fn)
+			}
+			return fns, true
+		}
+	}
 	return nil, false
+}
+
+// tableFuncs: the function values stored by the package initialiser into the
+// map held by a package-level variable (a dispatch table such as
+// `var senders = map[kind]func(...){k1: f1, ...}`), with their constant keys.
+type tableEntry struct {
+	key *ssa.Const
+	fn  *ssa.Function
+}
+
+func (p *Program) tableFuncs(g *ssa.Global) []tableEntry {
+	if g == nil || g.Pkg == nil {
+		return nil
+	}
+	ini := g.Pkg.Func("init")
+	if ini == nil {
+		return nil
+	}
+	var maps []ssa.Value
+	for _, b := range ini.Blocks {
+		for _, ins := range b.Instrs {
+			if st, ok := ins.(*ssa.Store); ok && st.Addr == ssa.Value(g) {
+				maps = append(maps, st.Val)
+			}
+		}
+	}
+	var out []tableEntry
+	funcOf := func(v ssa.Value) *ssa.Function {
+		for i := 0; i < 4; i++ {
+			switch x := v.(type) {
+			case *ssa.Function:
+				return x
+			case *ssa.MakeClosure:
+				f, _ := x.Fn.(*ssa.Function)
+				return f
+			case *ssa.ChangeType:
+				v = x.X
+			case *ssa.MakeInterface:
+				v = x.X
+			default:
+				return nil
+			}
+		}
+		return nil
+	}
+	for _, b := range ini.Blocks {
+		for _, ins := range b.Instrs {
+			mu, ok := ins.(*ssa.MapUpdate)
+			if !ok {
+				continue
+			}
+			for _, m := range maps {
+				if mu.Map == m {
+					if f := funcOf(mu.Value); f != nil {
+						k, _ := mu.Key.(*ssa.Const)
+						out = append(out, tableEntry{k, f})
+					}
+				}
+			}
+		}
+	}
+	return out
+}
+
+// dispatchTable: when v is the result of looking a key up in the map of a
+// package-level variable, that variable.
+func dispatchTable(v ssa.Value) *ssa.Global {
+	for i := 0; i < 4; i++ {
+		switch x := v.(type) {
+		case *ssa.Extract:
+			v = x.Tuple
+		case *ssa.Lookup:
+			v = x.X
+		case *ssa.UnOp:
+			g, _ := x.X.(*ssa.Global)
+			return g
+		default:
+			return nil
+		}
+	}
+	return nil
 }
 
 // funcName gives a stable, human readable name: "client.(*ovsdbClient).monitor".
@@ -391,6 +481,13 @@ func (p *Program) Reach(roots ...*ssa.Function) []*ssa.Function {
 			for _, ins := range b.Instrs {
 				if ci, ok := ins.(ssa.CallInstruction); ok {
 					add(ci.Common().StaticCallee())
+					if ci.Common().StaticCallee() == nil && !ci.Common().IsInvoke() {
+						if g := dispatchTable(ci.Common().Value); g != nil {
+							for _, e := range p.tableFuncs(g) {
+								add(e.fn)
+							}
+						}
+					}
 				}
 			}
 		}
